@@ -397,9 +397,24 @@ func c07BlindsUnset(c *h.Ctx) {
 	c.Feature("blinds-unset")
 	c.Nontrivial()
 	c.FP("unset", fmt.Sprintf("%+v", cfg))
-	// the blind level arrives while the engine waits to retry: the hand the retry opens is hand 1, with a fresh id
+	// the blind level arrives while the engine waits to retry: the hand the retry opens is hand 1, with a fresh id;
+	// in two of three cases the table is closed / released in the same wait, and then nothing may open
 	if !c.Thorough() || c.R.Intn(2) == 0 {
 		bb := int64(20)
+		switch (c.Case / 32) % 3 {
+		case 1:
+			s.TE.CloseTable()
+			time.Sleep(time.Duration(c.R.Intn(300)) * time.Millisecond)
+			s.TE.UpdateBlind(1, 0, 0, bb/2, bb)
+			c07NoOpenAfterRetry(c, s, cfg, "closed")
+			return
+		case 2:
+			s.TE.ReleaseTable()
+			time.Sleep(time.Duration(c.R.Intn(300)) * time.Millisecond)
+			s.TE.UpdateBlind(1, 0, 0, bb/2, bb)
+			c07NoOpenAfterRetry(c, s, cfg, "released")
+			return
+		}
 		s.TE.UpdateBlind(1, 0, 0, bb/2, bb)
 		var oe *h.Ev
 		s.WaitFor(8*time.Second, func(e *h.Ev) bool {
@@ -422,6 +437,23 @@ func c07BlindsUnset(c *h.Ctx) {
 		}
 	}
 	c.Sample(map[string]interface{}{"kind": "blinds unset", "cfg": cfg})
+}
+
+// c07NoOpenAfterRetry: the table was closed / released and the blind level arrived while the engine was waiting to
+// retry a failed open: the retry (at most 3.3 s away) must not open a hand.
+func c07NoOpenAfterRetry(c *h.Ctx, s *h.Sim, cfg h.TableCfg, what string) {
+	var oe *h.Ev
+	s.WaitFor(7*time.Second, func(e *h.Ev) bool {
+		if e.Kind == h.EvTable && e.T != nil && e.T.State.Status == pt.TableStateStatus_TableGameOpened {
+			oe = e
+		}
+		return oe != nil || e.Kind == h.EvGateRet
+	}, nil)
+	if oe != nil || s.TE.GetTable().State.GameCount > 0 {
+		c.Violate("C07/hand-opened-after-"+map[string]string{"closed": "close", "released": "release"}[what]+"/during-open-retry", fmt.Sprintf("the table was %s while the engine was waiting to retry a failed open; the blind level then arrived and the retry opened a hand (game count %d)", what, s.TE.GetTable().State.GameCount), map[string]interface{}{"cfg": cfg, "trace": s.TraceTail(30)})
+		return
+	}
+	c.Feature(what + "-during-open-retry")
 }
 
 // c07DoubleFire: a second set-up for the same hand plus all signals right after the first gate fire.
@@ -553,7 +585,7 @@ func init() {
 		},
 		RequiredFeatures: func(tier string) []string {
 			f := []string{"lifecycle:interval=0", "lifecycle:interval=1", "close-after-set-up", "release-after-set-up", "close-during-continue-delay", "release-during-continue-delay", "break-after-set-up", "double-fire", "paused-after-hand"}
-			f = append(f, "blinds-unset", "opened-by-retry-after-blinds-arrived", "pause-mid-hand-then-set-up")
+			f = append(f, "blinds-unset", "opened-by-retry-after-blinds-arrived", "closed-during-open-retry", "released-during-open-retry", "pause-mid-hand-then-set-up")
 			return f
 		},
 		CaseTimeout: 240e9,
